@@ -202,7 +202,7 @@ Inductive clause :=
 | ServerName | ServerAddr
 | TryUnknown
 | ForcedUnknown
-| ForcedCaseDup                                      (* not in the code today: see spec_validate *)
+| ForcedCaseDup                                      (* since fix commit ad3d3c8 *)
 | CompressionLevel | CompressionThreshold
 | BedBFNoServers | BedBFBadName | BedBFDuplicate      (* "bedrock: ..." from the top level *)
 (* warnings that sit next to an error boundary *)
@@ -327,8 +327,8 @@ Definition v_threshold (c : cfg) : list clause :=
 
 (* The loader lower-cases forcedHosts keys (gate.go finishConfigCandidate) and matching is documented as
    case-insensitive, so two keys that differ only in letter case cannot both be honoured: the loader keeps one of
-   them, chosen by Go's random map iteration order.  The code has no check for this (finding C37-2); the
-   specification has. *)
+   them, chosen by Go's random map iteration order.  The pre-fix code had no check for this (finding C37-2,
+   fixed by ad3d3c8: one error per key whose lower-cased form was already seen). *)
 Fixpoint nodup_str (l : list str) : bool :=
   match l with [] => true | x :: r => negb (mem_str x r) && nodup_str r end.
 Definition forced_keys (c : cfg) : list str := map lower_ascii (map fst (forced c)).
@@ -356,18 +356,23 @@ Definition gen_validate (ops_bad : N -> bool) (dupcheck : bool) (c : cfg) : list
   (if health_enabled c then (if valid_host_port (health_bind c) then [] else [HealthBind]) else [])
   ++ java_validate ops_bad dupcheck c ++ v_bedrock c.
 
-(* the code as it is: `quota.OPS <= 0` — false for NaN, so NaN passes (finding C37-1) *)
-Definition impl_validate := gen_validate f32_le_zero false.
-(* what the message documents: "use a number > 0"; and forced-host keys distinct ignoring case *)
+(* The code as it is now (after the fix commits d6c5881 "reject a NaN quota rate" and ad3d3c8 "reject forced host
+   keys that differ only in letter case"): `!(quota.OPS > 0)` and the forcedHostKeys loop. *)
+Definition impl_validate := gen_validate (fun b => negb (f32_gt_zero b)) true.
+(* what the documentation demands: "use a number > 0"; forced-host keys distinct ignoring case *)
 Definition spec_validate := gen_validate (fun b => negb (f32_gt_zero b)) true.
 
-Definition validate := spec_validate.
+Definition validate := impl_validate.
 
-(* trigger of finding C37-1: an enabled quota whose ops is NaN *)
+(* PRE-FIX code (before d6c5881 / ad3d3c8), kept for the record: `quota.OPS <= 0` — false for NaN, so NaN passed
+   (finding C37-1, fixed) — and no check of forced-host keys (finding C37-2, fixed). *)
+Definition prefix_validate := gen_validate f32_le_zero false.
+
+(* trigger of the fixed finding C37-1: an enabled quota whose ops is NaN *)
 Definition nan_quota (c : cfg) : bool :=
   (q_enabled (q_conn c) && f32_is_nan (q_ops (q_conn c))) || (q_enabled (q_login c) && f32_is_nan (q_ops (q_login c))).
 
-(* trigger of finding C37-2: classic mode, two forced-host keys equal ignoring case *)
+(* trigger of the fixed finding C37-2: classic mode, two forced-host keys equal ignoring case *)
 Definition forced_dup_trigger (c : cfg) : bool := negb (lite_enabled c) && forced_collision c.
 
 (* the modelled warnings (classic mode only; Lite returns before them) *)
